@@ -91,7 +91,9 @@ class ExteriorDerivative(LinearOperator):
 
             b = S.One
             if vectors:
-                b = cls(Mul(*vectors), evaluate=False)
+                # once the coefficients are out, the remaining factor must be
+                # evaluated too, otherwise d(2*d(u)) = 2*d(d(u)) is never reduced
+                b = cls(Mul(*vectors), evaluate=bool(coeffs))
 
             return Mul(a, b)
 
@@ -133,6 +135,10 @@ class ExteriorProduct(LinearOperator):
         left = _args[0]
         right = _args[1]
         # TODO add properties in the spirit of ExteriorDerivative
+
+        # bilinearity: the product with zero is zero
+        if left == 0 or right == 0:
+            return 0
 
         # ...
         if isinstance(left, Add):
@@ -423,7 +429,9 @@ class AdjointExteriorDerivative(LinearOperator):
 
             b = S.One
             if vectors:
-                b = cls(Mul(*vectors), evaluate=False)
+                # once the coefficients are out, the remaining factor must be
+                # evaluated too, otherwise d(2*d(u)) = 2*d(d(u)) is never reduced
+                b = cls(Mul(*vectors), evaluate=bool(coeffs))
 
             return Mul(a, b)
 
@@ -571,7 +579,9 @@ class Hodge(LinearOperator):
 
             b = S.One
             if vectors:
-                b = cls(Mul(*vectors), evaluate=False)
+                # once the coefficients are out, the remaining factor must be
+                # evaluated too, otherwise d(2*d(u)) = 2*d(d(u)) is never reduced
+                b = cls(Mul(*vectors), evaluate=bool(coeffs))
 
             return Mul(a, b)
 
